@@ -95,7 +95,7 @@ Qed.
 Definition ex07_spec (inp : list (str * (list scmd * ret_val))) (dflt : option ret_val) : screen_spec :=
   {| sc_setup := []; sc_refresh := []; sc_show := []; sc_closed := []; sc_input := inp;
      sc_input_default := ([], dflt); sc_prompt_none := false; sc_input_required := true;
-     sc_no_separator := false; sc_skip_check := false; sc_pages := 0; sc_answer0 := AnsNoAttr; sc_custom := [] |}.
+     sc_no_separator := false; sc_skip_check := false; sc_pages := 0; sc_answer0 := AnsNoAttr; sc_custom := []; sc_setup_cmds := [] |}.
 Definition ex07_specl : list screen_spec :=
   [ex07_spec [([49%N], ([], RProcessed)); ([50%N], ([], RDiscarded)); ([51%N], ([], RNone))] None;
    ex07_spec [([49%N], ([SSetAnswer AnsTrue], RClose)); ([50%N], ([SSetAnswer AnsOther], RClose))] None].
